@@ -18,7 +18,7 @@ ERRS = tcpsys.FAULT_ERRNOS
 
 
 def BOUND(tier):
-    return 1 if tier == "quick" else 2
+    return 1 if tier == "quick" else 3
 
 
 def RULE(tier):
